@@ -57,6 +57,7 @@ class Twin:
         self.builtins["abs"] = _twin_abs
         self.builtins["max"] = _twin_max
         self.builtins["min"] = _twin_min
+        self.builtins["print"] = lambda *a, **k: None     # the library's console warnings are not part of any contract
 
     # ---- import machinery
     def _import(self, name, globals=None, locals=None, fromlist=(), level=0):
